@@ -133,9 +133,9 @@ Definition om_prev (s : omap) (k : Z) : obs :=
 
 Definition om_forall (s : omap) (c : Z) : bool :=
   if negb (om_init s) then true else forallb (fun k => k <? c) (om_list s).
-(* as written in orderedmap.go: `if om.pairs == nil { return true }` *)
+(* as written in orderedmap.go: `if om.pairs == nil { return false }` *)
 Definition om_forany (s : omap) (c : Z) : bool :=
-  if negb (om_init s) then true else existsb (fun k => k <? c) (om_list s).
+  if negb (om_init s) then false else existsb (fun k => k <? c) (om_list s).
 
 Definition om_set_list (s : omap) (l : list (Z * Z)) : omap :=
   fold_left (fun s p => fst (om_set s (fst p) (snd p))) l s.
@@ -247,14 +247,4 @@ Fixpoint sp_run (l : spec) (ops : list om_op) : list obs :=
   match ops with
   | [] => []
   | o :: r => let '(l', v) := sp_step l o in v :: sp_run l' r
-  end.
-
-(* the one place where orderedmap.go departs from the specification: ForAnyKey on a map whose
-   `pairs` is still nil (zero value never written to) answers true.  [om_guard s ops] holds when
-   the history never asks that question in that state. *)
-Fixpoint om_guard (s : omap) (ops : list om_op) : bool :=
-  match ops with
-  | [] => true
-  | o :: r =>
-      (match o with OForAny _ => om_init s | _ => true end) && om_guard (fst (om_step s o)) r
   end.
